@@ -156,7 +156,10 @@ def _cname(C):
     return ''.join({'Recv': 'r', 'Emit': 'e', 'Call': 'c'}[o[0]] + ('t' if len(o) > 1 and o[1] else '') for o in C)
 
 
-EXHAUSTIVE_IN_THOROUGH = set()
+# thread scenarios small enough to enumerate completely in the thorough tier (3 k - 35 k schedules each)
+EXHAUSTIVE_IN_THOROUGH = {'end a1 rr', 'end a1 rtr', 'end a1 rrt', 'end a1 rtrt', 'end a2 r', 'end a2 rt',
+                          'end a2 rr', 'end a2 rtr', 'end a2 rrt', 'end a2 rtrt', 'giveup', 'burst',
+                          'emit reconnect', 'two producers'}
 
 WITNESSES = [
     # (name, atomic, P, C, schedule, expected bit on the pinned tree) - the witnesses of
@@ -192,69 +195,104 @@ class TooManyErrors(Exception):
     pass
 
 
+def _explore_scenario(task):
+    """Worker (own process): every run of one scenario, already printed as Gallina terms."""
+    name, P, C, small, thorough, seed, fixed = task
+    from vt import common
+    rng = common.Rng(seed).sub('C19/' + name)
+    out, errs = [], []
+
+    def add(atomic, r, kind):
+        sw = switches_in_window(r)
+        sample = None
+        if sw and not any(o[7] for o in out):
+            sample = {'mode': 'asyncio' if atomic else 'threads', 'scenario': name, 'schedule': list(r.schedule),
+                      'trace': [[' '.join(map(str, l)) for l in st] for st in r.trace][:14], 'status': str(r.status)}
+        out.append((atomic, kind, case_term(fixed[atomic], atomic, P, C, r), list(r.schedule), r.status,
+                    r.error, sw, sample))
+        if r.error:
+            errs.append(r.error)
+            if len(errs) >= 8:
+                raise TooManyErrors()
+
+    try:
+        # asyncio: always exhaustive
+        for r in S.explore(S.run_async, P, C, limit=200000):
+            add(True, r, 'exhaustive')
+        # threads: exhaustive when affordable; otherwise every schedule with a bounded number of
+        # preemptive context switches, plus random walks over the unbounded space
+        if small or (thorough and name in EXHAUSTIVE_IN_THOROUGH):
+            for r in S.explore(S.run_threads, P, C, limit=120000):
+                add(False, r, 'exhaustive')
+        else:
+            k = 4 if thorough else 3
+            for r in S.explore(S.run_threads, P, C, limit=30000, max_preempt=k):
+                add(False, r, 'preemptions<=%d' % k)
+            for _ in range(1500 if thorough else 120):
+                add(False, S.random_walk(S.run_threads, P, C, rng), 'random walk')
+        for _ in range(10):
+            add(False, S.random_walk(S.run_threads, P, C, rng, noop_rate=0.25), 'walk with no-ops')
+            add(True, S.random_walk(S.run_async, P, C, rng, noop_rate=0.25), 'walk with no-ops')
+    except TooManyErrors:
+        pass
+    S.close_loop()
+    return out
+
+
 def collect(chk):
-    rng = chk.rng
-    cases, meta, errs = [], [], []
+    import multiprocessing
+    from vt import common
+    cases, meta = [], []
     fixed = {}
     for atomic, runner in ((False, S.run_threads), (True, S.run_async)):
         fixed[atomic] = probe_variant(runner)
+    S.close_loop()
     chk.extra['variant'] = {'SimpleClient.final_wakes_input': fixed[False],
                             'AsyncSimpleClient.final_wakes_input': fixed[True]}
+    n_err = [0]
 
-    def add(name, atomic, P, C, r, kind):
-        cases.append(case_term(fixed[atomic], atomic, P, C, r))
-        meta.append({'mode': 'asyncio' if atomic else 'threads', 'scenario': name, 'P': P, 'C': C,
-                     'schedule': list(r.schedule), 'status': r.status, 'kind': kind, 'error': r.error})
-        sw = switches_in_window(r)
-        key = (atomic, name, tuple(r.schedule)) if sw else None
-        sample = None
-        if sw and len(chk.samples) < 6 and len(cases) % 97 == 1:
-            sample = {'mode': meta[-1]['mode'], 'scenario': name, 'schedule': list(r.schedule),
-                      'trace': [[list(map(str, l)) for l in st] for st in r.trace][:12], 'status': str(r.status)}
-        chk.count(1, key, sample)
-        chk.dist('%s %s' % (meta[-1]['mode'], kind))
+    def add(name, P, C, rec):
+        atomic, kind, term, schedule, status, error, sw, sample = rec
+        cases.append(term)
+        mode = 'asyncio' if atomic else 'threads'
+        meta.append({'mode': mode, 'scenario': name, 'P': P, 'C': C, 'schedule': schedule,
+                     'status': status, 'kind': kind, 'error': error})
+        chk.count(1, (atomic, name, tuple(schedule)) if sw else None, sample)
+        chk.dist('%s %s' % (mode, kind))
         chk.dist('switches in window: %s' % (sw if sw < 4 else '4+'))
-        if r.error:
-            errs.append('%s %s %s: %s' % (meta[-1]['mode'], name, r.schedule, r.error))
-            if len(errs) == 1:
-                chk.broken_obligation('the real class leaves the modelled behaviour (driver error): ' + errs[0])
-            if len(errs) >= 8:
-                raise TooManyErrors()
+        if error:
+            n_err[0] += 1
+            if n_err[0] <= 3:
+                chk.broken_obligation('the real class leaves the modelled behaviour (driver error) on %s %r %s: %s'
+                                      % (mode, name, schedule, error))
 
     # the refutation witnesses of the Coq development, replayed on the real classes
     for name, atomic, P, C, sched, bit in WITNESSES:
         r = (S.run_async if atomic else S.run_threads)(P, C, sched)
-        add('witness ' + name, atomic, P, C, r, 'witness')
+        add('witness ' + name, P, C, (atomic, 'witness', case_term(fixed[atomic], atomic, P, C, r),
+                                      list(r.schedule), r.status, r.error, switches_in_window(r), None))
         meta[-1]['expect_bit'] = bit
-
-    try:
-        _collect_scenarios(chk, rng, add)
-    except TooManyErrors:
-        chk.broken_obligation('exploration stopped after %d driver errors' % len(errs))
     S.close_loop()
+
+    scs = scenarios(chk.thorough)
+    tasks = [(name, P, C, small, chk.thorough, chk.rng.seed_value, fixed) for name, P, C, small in scs]
+    order = sorted(range(len(tasks)), key=lambda i: -_cost(scs[i], chk.thorough))
+    ctx = multiprocessing.get_context('fork')
+    with ctx.Pool(min(common.NCPU, len(tasks))) as pool:
+        results = pool.map(_explore_scenario, [tasks[i] for i in order], chunksize=1)
+    by_index = dict(zip(order, results))
+    for i, (name, P, C, small) in enumerate(scs):
+        for rec in by_index[i]:
+            add(name, P, C, rec)
+    if n_err[0]:
+        chk.broken_obligation('%d runs ended in a driver error' % n_err[0])
     return cases, meta, fixed
 
 
-def _collect_scenarios(chk, rng, add):
-    for name, P, C, small in scenarios(chk.thorough):
-        # asyncio: always exhaustive
-        for r in S.explore(S.run_async, P, C, limit=200000):
-            add(name, True, P, C, r, 'exhaustive')
-        # threads: exhaustive when affordable; otherwise every schedule with a bounded number of
-        # preemptive context switches, plus random walks over the unbounded space
-        if small or (chk.thorough and name in EXHAUSTIVE_IN_THOROUGH):
-            for r in S.explore(S.run_threads, P, C, limit=120000):
-                add(name, False, P, C, r, 'exhaustive')
-        else:
-            k = 4 if chk.thorough else 2
-            for r in S.explore(S.run_threads, P, C, limit=30000, max_preempt=k):
-                add(name, False, P, C, r, 'preemptions<=%d' % k)
-            walks = 1200 if chk.thorough else 60
-            for _ in range(walks):
-                add(name, False, P, C, S.random_walk(S.run_threads, P, C, rng), 'random walk')
-        for _ in range(10):
-            add(name, False, P, C, S.random_walk(S.run_threads, P, C, rng, noop_rate=0.25), 'walk with no-ops')
-            add(name, True, P, C, S.random_walk(S.run_async, P, C, rng, noop_rate=0.25), 'walk with no-ops')
+def _cost(sc, thorough):
+    name, P, C, small = sc
+    steps = sum(len(x) for x in P) * len(C)
+    return steps * (50 if thorough and name in EXHAUSTIVE_IN_THOROUGH else 1)
 
 
 def run(chk):
